@@ -14,7 +14,7 @@ let show_opt_outcome f = function Some k -> f k | None -> "!OUT_OF_FUEL"
 let dispatch f args = match f, args with
   | "inverse_mod", [a; m] -> show_outcome show_z (inverse_mod (arg_z a) (arg_z m))
   | "gen_k", [fuel; n; d; z] ->
-    show_outcome show_z (deterministic_generate_k hmac (nat_of_int 32) (arg_nat fuel) (arg_z n) (arg_z d) (arg_z z))
+    show_outcome show_z (default_gen_k hmac (arg_nat fuel) (arg_z n) (arg_z d) (arg_z z))
   | "spec_k", [fuel; q; x; h1] -> show_opt_outcome show_z (rfc6979_k hmac (arg_z q) (arg_nat fuel) (arg_z x) (arg_bytes h1))
   | "verify", [p; a; b; gx; gy; n; qx; qy; z; r; s] ->
     show_outcome show_bool (i_verify (curve p a b gx gy n) (arg_raw qx qy) (arg_z z) (arg_z r) (arg_z s))
